@@ -147,7 +147,7 @@ func (b *assignmentBuilder) matchStructFieldAndStruct(
 		}
 	}
 
-	return b.structFieldAndStructGettersAndFields(lhs, rhs)
+	return b.structFieldAndStructGettersAndFields(lhs, rhs, additionalArgs)
 }
 
 // matchStructFieldAndStruct matches a struct field on the left-hand side of an assignment
@@ -155,7 +155,11 @@ func (b *assignmentBuilder) matchStructFieldAndStruct(
 // If a match is found, returns an Assignment that represents the field assignment.
 // If no match is found, returns a NoMatchField or SkipField if the field is to be skipped
 // based on the options set in the AssignmentBuilder.
-func (b *assignmentBuilder) structFieldAndStructGettersAndFields(lhs bmodel.Node, rhsStruct bmodel.Node) (gmodel.Assignment, error) {
+func (b *assignmentBuilder) structFieldAndStructGettersAndFields(
+	lhs bmodel.Node,
+	rhsStruct bmodel.Node,
+	additionalArgs []bmodel.Node,
+) (gmodel.Assignment, error) {
 	opts := b.opts
 	methodPosStr := b.fset.Position(b.methodPos)
 	lhsExpr := lhs.AssignExpr()
@@ -209,7 +213,7 @@ func (b *assignmentBuilder) structFieldAndStructGettersAndFields(lhs bmodel.Node
 			if rhs.ObjNullable() {
 				nestStruct.NullCheckExpr = rhs.NullCheckExpr()
 			}
-			nestStruct.Contents, err = b.structToStruct(lhs, rhs, nil)
+			nestStruct.Contents, err = b.structToStruct(lhs, rhs, additionalArgs)
 			if err == nil && 0 < len(nestStruct.Contents) {
 				a = nestStruct
 			}
@@ -380,7 +384,11 @@ func (b *assignmentBuilder) createWithTemplatedMapper(
 	mapper *option.NameMatcher,
 ) (gmodel.Assignment, error) {
 	mappedNode := func() bmodel.Node {
-		args := []bmodel.Node{rhs}
+		// $1 is the method's source, also when a nested struct is being copied.
+		root := rhs
+		for ; root.Parent() != nil; root = root.Parent() {
+		}
+		args := []bmodel.Node{root}
 		args = append(args, additionalArgs...)
 		rhsNode, ok := b.resolveTemplatedExpr(mapper.Src(), args)
 		if !ok {
